@@ -1147,6 +1147,22 @@ func c3Eval(cs c3Case) c3Result {
 	return res
 }
 
+// c3LispRoundtrip runs the round trip through the Lisp functions with the object bound to a variable.
+func c3LispRoundtrip(cs c3Case) string {
+	scope := slip.NewScope()
+	x := cs.obj.object()
+	scope.Let(slip.Symbol("c03-x"), x)
+	o := lib.EvalString(scope, "(read-from-string (write-to-string c03-x "+cs.cf.lispKeys()+"))")
+	if !o.Ok {
+		return "condition:" + o.Class
+	}
+	y := o.Value
+	if vs, ok := y.(slip.Values); ok && len(vs) > 0 {
+		y = vs[0]
+	}
+	return c3Compare(x, y)
+}
+
 func c3WFails(cs c3Case) string {
 	res := c3Eval(cs)
 	if res.wAspect != "" {
@@ -1202,6 +1218,7 @@ func runC03(c *lib.Ctx) {
 		g.add(o, g.randCfg(), "")
 	}
 	c03Run(c, g.cases, nSweep)
+	c03Wire(c, g)
 }
 
 func c03Run(c *lib.Ctx, cases []c3Case, nSweep int) {
@@ -1262,6 +1279,7 @@ func c03Run(c *lib.Ctx, cases []c3Case, nSweep int) {
 
 	agree, inDomain, kText, kRead, prettySame, prettyDiff := 0, 0, 0, 0, 0, 0
 	shrinkBudget := 40
+	lispChecked := 0
 	var pendingReports []c3Pending
 	kindSeen := map[string]int{}
 	for i, cs := range cases {
@@ -1324,6 +1342,14 @@ func c03Run(c *lib.Ctx, cases []c3Case, nSweep int) {
 				"observed": "the pretty and the flat text do not read back to equal objects", "expected": "equal objects",
 				"expected_from": "property statement (pretty printing changes only white space)"})
 		}
+		// the same round trip at Lisp level on a sample: (read-from-string (write-to-string x …))
+		if cs.inDomain() && res.wAspect == "" && i%13 == 0 {
+			lispChecked++
+			if a := c3LispRoundtrip(cs); a != "" {
+				report("lisp-level:"+a, map[string]any{"observed": "(read-from-string (write-to-string x " + cs.cf.lispKeys() + ")) " + a,
+					"expected": "the same result as slip.Read(Printer.Append(x)): an object equal to x", "expected_from": "property statement"})
+			}
+		}
 		if reqIdx[i] >= 0 {
 			if w := strings.Fields(repliesP[reqIdx[i]]); len(w) == 2 && w[0] == "ok" && lib.Unhex(w[1]) == res.pretty {
 				prettySame++
@@ -1358,6 +1384,7 @@ func c03Run(c *lib.Ctx, cases []c3Case, nSweep int) {
 	c.Ev.Coverage["random_cases"] = len(cases) - nSweep
 	c.Ev.Coverage["in_readable_domain"] = inDomain
 	c.Ev.Coverage["model_text_and_reader_agreements"] = kRead
+	c.Ev.Coverage["lisp_level_roundtrips"] = lispChecked
 	c.Ev.Coverage["model_pretty_layout_identical"] = prettySame
 	c.Ev.Coverage["model_pretty_layout_different"] = prettyDiff
 	c.Ev.Coverage["rule"] = "case = (object, printer configuration); sweeps = boundary integers/ratios x base 2..36 x radix, one-character strings/characters/symbols over all ASCII and sampled Unicode, number-like / quoted symbol names x case, container shapes x pretty x margins, arrays/vectors x base x radix x array, floats of each format x readably (exhaustive, seed independent) + random nested objects x random configuration; every case is printed flat and pretty and read back (W), float-free cases are also compared with the model text and the model reader (K); non-trivial = has a container level or a boundary leaf (|n| >= 2^31, ratio, float, char outside [a-z0-9], symbol needing quoting, string with quote/backslash/non-printing); distinct by (configuration, object term)"
@@ -1446,6 +1473,19 @@ func c03Replay(c *lib.Ctx) {
 		return
 	}
 	term, _ := rec["term"].(string)
+	if wire, _ := rec["wire"].(bool); wire {
+		obj, err := c3ParseTerm(term)
+		if err != nil {
+			fmt.Println("replay file has no usable term:", err)
+			return
+		}
+		aspect, payload, observed := c3WireRoundtrip(obj)
+		fmt.Printf("replay swank wire message %s\n  payload: %q\n  result : %q %s\n  expected: the message read back is equal to the message written\n", term, payload, aspect, observed)
+		if aspect != "" {
+			c.Report("replay", false, map[string]any{"term": term, "wire": true})
+		}
+		return
+	}
 	cfm, _ := rec["config"].(map[string]any)
 	obj, err := c3ParseTerm(term)
 	if err != nil || cfm == nil {
